@@ -14,6 +14,10 @@ type Queue struct {
 
 // NewQueue returns a Queue object.
 func NewQueue(size int) *Queue {
+	if size < 1 {
+		size = 1
+	}
+
 	return &Queue{
 		elements: make([]any, size),
 		size:     size,
